@@ -246,19 +246,21 @@ class C07(Profile):
     components = C01.components
 
     def gen(self, rng, tier):
+        from .common import backends, finish_cfg
+        bk = backends(('dict', 'dict', 'dict', 'maildir'))
         r = rng.random()
         if r < 0.5:
-            return gen_echo_case(rng, tier)
+            return finish_cfg(gen_echo_case(rng, tier, backends=bk), rng)
         if r < 0.7:
-            case = gen_input_case(rng, tier)
+            case = gen_input_case(rng, tier, backends=bk)
             case['family'] = 'inputs'
         elif r < 0.85:
-            case = gen_concurrent_case(rng, tier)
+            case = gen_concurrent_case(rng, tier, backends=bk)
             case['family'] = 'concurrent'
         else:
-            case = gen_model_case(rng, tier)
+            case = gen_model_case(rng, tier, backends=bk)
             case['family'] = 'model'
-        return case
+        return finish_cfg(case, rng)
 
     def run(self, case, trace=False):
         fam = case.get('family', 'echo')
